@@ -351,7 +351,10 @@ func c09(o Opts) error {
 	var coq strings.Builder
 	coq.WriteString("From ZV Require Import Base.Prelude Model.Vam Model.VamCases.\n")
 	t0 := time.Now()
-	if err := c09Lake(o, rng, res, &coq); err != nil {
+	if os.Getenv("C09_ONLY") == "vprog" {
+		// development aid: skip the lake part
+		coq.WriteString("Definition agg_cases : list agg_case := [].\nDefinition plan_cases : list plan_case := [].\n")
+	} else if err := c09Lake(o, rng, res, &coq); err != nil {
 		return err
 	}
 	t1 := time.Now()
